@@ -61,6 +61,19 @@ def _pxm():
     return _PXM
 
 
+_PXQ = {}
+
+
+def _pxq():
+    """the model level dependency queries of pharmpy.modeling.expressions (imported once, before the fork)"""
+    if not _PXQ:
+        from pharmpy.model import DataInfo
+        from pharmpy.modeling.expressions import depends_on, get_parameter_rv, has_random_effect
+        _PXQ.update(DataInfo=DataInfo, depends_on=depends_on, get_parameter_rv=get_parameter_rv,
+                    has_random_effect=has_random_effect)
+    return _PXQ
+
+
 def _exc(e):
     return f'{type(e).__name__}: {str(e)[:160]}'
 
@@ -394,6 +407,31 @@ CL_SUBS_FUNC = ('subs with an applied function (compartment amount A_X(t)) as ke
 CL_SUBS_EXPR = ('subs with a compound expression as key replaces the right hand sides equal to that expression and '
                 'changes nothing else')
 CL_SPLIT = 'before_odes + ode_system + after_odes is the statement list'
+# the dependency queries on a model (pharmpy.modeling.expressions); the value of s is its value after the statements
+# before the ODE system (all statements if there is none)
+EXPRM = 'src/pharmpy/modeling/expressions.py:'
+CL_MQ_DEP_SUP = ('depends_on(model, s, x) is True for every input x (parameter, random variable, data column) the value '
+                 'of s can depend on')
+CL_MQ_DEP_EQ = ('depends_on(model, s, x) is False for every input x the value of s does not depend on when no symbol is '
+                'assigned twice')
+CL_MQ_DEP_ERR = 'depends_on answers for every symbol without internal error (KeyError only for a symbol never assigned)'
+CL_MQ_HRE_SUP = ('has_random_effect(model, s, level) is True when the value of s can depend on a random variable of that '
+                 'level (iiv, iov, all)')
+CL_MQ_HRE_EQ = ('has_random_effect(model, s, level) is False when the value of s depends on no random variable of that '
+                'level and no symbol is assigned twice')
+CL_MQ_HRE_ERR = ('has_random_effect answers for every symbol and level without internal error (KeyError only for a '
+                 'symbol never assigned)')
+CL_MQ_GPR_SUP = ('get_parameter_rv(model, s, var_type) lists every random variable of that type the value of s can '
+                 'depend on (s not defined by an expression in a single symbol such as S1 = V)')
+CL_MQ_GPR_EQ = ('get_parameter_rv(model, s, var_type) is a sorted list of random variables of that type that s depends '
+                'on, and no others, when no symbol is assigned twice (s not defined by an expression in a single symbol)')
+CL_MQ_GPR_ERR = 'get_parameter_rv raises no internal error for a symbol of the statements that is not a random variable'
+CL_MQ_PURE = 'the dependency queries on a model leave the model statements unchanged'
+# the same clauses on the programs in which a symbol is read before its first assignment (the earlier reads see the
+# parameter or data column of that name, which is overwritten later) are reported under keys of their own
+_MQ_UBD = ' (programs that read a symbol before its first assignment, i.e. overwrite a parameter or data column later)'
+_MQ_CLAUSES = {False: (CL_MQ_DEP_SUP, CL_MQ_DEP_EQ, CL_MQ_HRE_SUP, CL_MQ_HRE_EQ, CL_MQ_GPR_SUP, CL_MQ_GPR_EQ)}
+_MQ_CLAUSES[True] = tuple(c + _MQ_UBD for c in _MQ_CLAUSES[False])
 
 
 def _fid(method):
@@ -535,6 +573,137 @@ def _check_rup(prog, objs, st, inputs, F):
                   f'model with parameters {["UNUSED"] + pnames + ["OM_E", "OM_U"]} and random variables EU ~ N(0, OM_U), '
                   f'E ~ N(0, OM_E): the result has parameters {got_p} and random variables {got_r}, expected '
                   f'{want_p} and {want_r}' + ('' if same else '; the statements changed'))
+
+
+_MQ_LHS = ('A', 'B', 'C', 'Y')
+_MQ_LHS3 = ('A', 'B', 'Y')      # the families with three assignable symbols
+_MQ_RVS = {'iiv': ('E',), 'iov': ('P',), 'all': ('E', 'P')}
+
+
+def _mq_applies(prog):
+    """the programs on which the model level queries are evaluated: programs without an ODE system whose assigned
+    symbols are first assigned in the order A, B, C, Y or A, B, Y (programs that differ only by a renaming of the
+    assigned symbols are taken once), and programs that end with the ODE system (the queries are about the statements
+    before the system; what follows it does not matter)"""
+    if not prog:
+        return False
+    if any(_is_ode(s) for s in prog):
+        return _is_ode(prog[-1])
+    order = []
+    for s in prog:
+        if s[0] not in order:
+            order.append(s[0])
+    return tuple(order) in (_MQ_LHS[:len(order)], _MQ_LHS3[:len(order)])
+
+
+def _check_mq(prog, objs, st, deps, low, inputs, single, F):
+    """depends_on / has_random_effect / get_parameter_rv of pharmpy.modeling.expressions on a model around the
+    statements: X is a data column, E a random variable of the IIV level (variance OM_E), P one of the IOV level
+    (variance OM_P), every other input a parameter.  The expected answers are the input sets of the reference
+    interpreter (deps: symbolic execution; low: for piecewise programs the inputs whose sign changes the value)"""
+    Model, NormalDistribution, Parameter, Parameters, RandomVariables, _ = _pxm()
+    q = _pxq()
+    pnames = [i for i in sorted(inputs, key=_ORDER.index) if i not in ('t', 'E', 'P', 'X')]
+    try:
+        if 'rvs' not in q:      # immutable parts of the model, created once per process
+            q['rvs'] = RandomVariables.create([NormalDistribution.create('E', 'IIV', 0, 'OM_E'),
+                                               NormalDistribution.create('P', 'IOV', 0, 'OM_P')])
+            q['datainfo'] = q['DataInfo'].create(['X'])
+        pars = Parameters.create([Parameter.create(i, 1.0) for i in pnames + ['OM_E', 'OM_P']])
+        model = Model.create(name='m', parameters=pars, random_variables=q['rvs'], statements=st,
+                             datainfo=q['datainfo'])
+    except Exception as e:
+        F.add_fid(EXPRM + 'depends_on', CL_MQ_DEP_ERR,
+                  f'a model with the data column X, the random variables E (IIV), P (IOV) and the parameters {pnames} '
+                  f'could not be created: {_exc(e)}')
+        return
+    about = f'[model: data column X, E ~ IIV, P ~ IOV, parameters {pnames}]'
+    n_pre = [i for i, s in enumerate(prog) if _is_ode(s)]
+    n_pre = n_pre[0] if n_pre else len(prog)
+    assigned = sorted({s[0] for s in prog[:n_pre]}, key=_ORDER.index)
+    ubd = bool(set(assigned) & set(inputs))
+    cl_dep_sup, cl_dep_eq, cl_hre_sup, cl_hre_eq, cl_gpr_sup, cl_gpr_eq = _MQ_CLAUSES[ubd]
+    cand = sorted((set(inputs) | {'X', 'P', 'E'}) - {'t'}, key=_ORDER.index)
+    for s in assigned:
+        i = _last_index(prog[:n_pre], s)
+        others = [o for o in cand if o != s]     # depends_on(s, s) asks about the symbol itself, not about an input
+        # ---- depends_on
+        got = set()
+        ok = True
+        for o in others:
+            try:
+                if q['depends_on'](model, s, o):
+                    got.add(o)
+            except Exception as e:
+                ok = False
+                F.add_fid(EXPRM + 'depends_on', CL_MQ_DEP_ERR, f'depends_on(model, {s}, {o}) raised {_exc(e)} {about}')
+                break
+        if ok:
+            missing = (set(low[i]) - {s, 't'}) - got
+            extra = got - set(deps[i])
+            if missing:
+                F.add_fid(EXPRM + 'depends_on', cl_dep_sup,
+                          f'depends_on(model, {s}, x) is False for x in {sorted(missing)}; the value of {s} depends on '
+                          f'the inputs {sorted(deps[i])}; True for {sorted(got)} {about}')
+            elif single and extra:
+                F.add_fid(EXPRM + 'depends_on', cl_dep_eq,
+                          f'depends_on(model, {s}, x) is True for x in {sorted(extra)}; the value of {s} depends exactly '
+                          f'on the inputs {sorted(deps[i])} {about}')
+        # ---- has_random_effect
+        for lvl in ('iiv', 'iov', 'all'):
+            try:
+                r = q['has_random_effect'](model, s, lvl)
+            except Exception as e:
+                F.add_fid(EXPRM + 'has_random_effect', CL_MQ_HRE_ERR,
+                          f'has_random_effect(model, {s}, {lvl!r}) raised {_exc(e)} {about}')
+                continue
+            if (set(_MQ_RVS[lvl]) & set(low[i])) and r is not True:
+                F.add_fid(EXPRM + 'has_random_effect', cl_hre_sup,
+                          f'has_random_effect(model, {s}, {lvl!r}) = {r!r}; the value of {s} depends on the inputs '
+                          f'{sorted(deps[i])} {about}')
+            elif single and not (set(_MQ_RVS[lvl]) & set(deps[i])) and r is not False:
+                F.add_fid(EXPRM + 'has_random_effect', cl_hre_eq,
+                          f'has_random_effect(model, {s}, {lvl!r}) = {r!r}; the value of {s} depends exactly on the '
+                          f'inputs {sorted(deps[i])} {about}')
+        # ---- get_parameter_rv (documented for parameters: not for a plain copy S1 = V of another symbol)
+        rhs = prog[i][1]
+        if rhs[0] != 'pw' and len(set(rhs)) == 1:
+            continue      # S = V, S = V + V: an expression in a single symbol
+        for lvl in ('iiv', 'iov'):
+            try:
+                r = q['get_parameter_rv'](model, s, lvl)
+                r = list(r)
+            except Exception as e:
+                F.add_fid(EXPRM + 'get_parameter_rv', CL_MQ_GPR_ERR,
+                          f'get_parameter_rv(model, {s}, {lvl!r}) raised {_exc(e)} {about}')
+                continue
+            must = sorted(set(_MQ_RVS[lvl]) & set(low[i]))
+            exact = sorted(set(_MQ_RVS[lvl]) & set(deps[i]))
+            if not set(must) <= set(r):
+                F.add_fid(EXPRM + 'get_parameter_rv', cl_gpr_sup,
+                          f'get_parameter_rv(model, {s}, {lvl!r}) = {r}; the value of {s} depends on the inputs '
+                          f'{sorted(deps[i])} {about}')
+            elif single and (set(r) - set(exact) or r != sorted(set(r))):
+                # (for a piecewise program the syntactic inputs `exact` may contain one the value does not depend on)
+                F.add_fid(EXPRM + 'get_parameter_rv', cl_gpr_eq,
+                          f'get_parameter_rv(model, {s}, {lvl!r}) = {r}, expected {exact}: the value of {s} depends '
+                          f'exactly on the inputs {sorted(deps[i])} {about}')
+    # a symbol that is never assigned: an answer or the KeyError, nothing else
+    never = [o for o in ('X', 'P', 'E') if o not in assigned][:1]
+    for o in never:
+        for fn, clause, call in (('depends_on', CL_MQ_DEP_ERR, lambda: q['depends_on'](model, o, 'P')),
+                                 ('has_random_effect', CL_MQ_HRE_ERR, lambda: q['has_random_effect'](model, o))):
+            try:
+                call()
+            except KeyError:
+                pass
+            except Exception as e:
+                F.add_fid(EXPRM + fn, clause, f'{fn}(model, {o}, ...) ({o} is never assigned) raised {_exc(e)} {about}')
+    try:
+        if list(model.statements) != objs:
+            F.add_fid(EXPRM + 'depends_on', CL_MQ_PURE, f'the statements of the model changed {about}')
+    except Exception as e:
+        F.add_fid(EXPRM + 'depends_on', CL_MQ_PURE, f'inspection raised {_exc(e)}')
 
 
 def _check_program(prog, level='full'):
@@ -832,6 +1001,10 @@ def _check_program(prog, level='full'):
     if has_ode and not (inputs & set(assigned)):
         _check_rup(prog, objs, st, inputs, F)
 
+    # ---- depends_on / has_random_effect / get_parameter_rv on a model around the statements ------
+    if _mq_applies(prog):
+        _check_mq(prog, objs, st, deps, low, inputs, single, F)
+
     # ---- frame: nothing above changed the original object ---------------------------------------
     try:
         if len(st) != n or any(st[i] is not objs[i] for i in range(n)) or \
@@ -906,14 +1079,17 @@ def _prog_size(prog):
 def _df_worker(task):
     fam, root = task
     root = _tup(root)
-    cases = nontrivial = 0
+    cases = nontrivial = mq = 0
     fails = {}
     also = {}
     samples = []
+    full = fam.get('level', 'full') == 'full'
 
     def run(prog):
-        nonlocal cases, nontrivial
+        nonlocal cases, nontrivial, mq
         cases += 1
+        if full and _mq_applies(prog):
+            mq += 1
         _, reach = ref_flow(prog)
         if any(d is not None for r in reach for d in r.values()):
             nontrivial += 1
@@ -943,7 +1119,7 @@ def _df_worker(task):
     else:
         for prog in _subtree(root, fam):
             run(prog)
-    return cases, nontrivial, fails, samples, also
+    return cases, nontrivial, fails, samples, also, mq
 
 
 def _families(tier):
@@ -1040,6 +1216,7 @@ def _run_pool(worker, tasks):
 def bounded_dataflow(tier):
     fams = _families(tier)
     _pxm()
+    _pxq()
     tasks = []
     for fam in reversed([f for f in fams if not f.get('new')]):   # the largest tasks first (load balance only)
         tasks += _tasks(fam)
@@ -1052,7 +1229,9 @@ def bounded_dataflow(tier):
     samples = []
     per_family = {}
     also = {}
-    for (fam, _root), (c, nt, fl, sm, al) in zip(tasks, results):
+    mq_total = 0
+    for (fam, _root), (c, nt, fl, sm, al, mq) in zip(tasks, results):
+        mq_total += mq
         for key, progs in al.items():       # tasks and the programs of a task are in enumeration order
             also.setdefault(key, []).extend(progs[:ALSO_CAP - len(also.get(key, []))])
         cases += c
@@ -1076,6 +1255,13 @@ def bounded_dataflow(tier):
                           'also': _also_list(as_case(prog, fid, clause),
                                              [as_case(q, fid, clause) for q in also.get((fid, clause), [])])})
     bound = ' | '.join(f"{f['name']} ({per_family.get(f['name'], 0)} programs): {f['bound']}" for f in fams)
+    bound += (f' | model level queries ({mq_total} of the programs above: those of the families checked in full that '
+              'have no ODE system and assign their symbols for the first time in the order A,B,C,Y or A,B,Y - programs that '
+              'differ only by renaming the assigned symbols are taken once - and those that end with the ODE system): '
+              'a model around the statements with the data column X, the random variables E (IIV) and P (IOV) and every '
+              'other input as parameter; for every symbol s assigned before the ODE system depends_on(model, s, x) for '
+              'every input x, has_random_effect(model, s, level) for iiv/iov/all and get_parameter_rv(model, s, type) '
+              'for iiv/iov (s not defined by an expression in a single symbol) against the inputs of the reference interpreter')
     return {'cases': cases, 'nontrivial': nontrivial, 'bound': bound, 'samples': samples, 'fails': out_fails}
 
 
@@ -1460,6 +1646,23 @@ def _compare_orders(cs, cs1, add, what):
 #   mix  CLij/Vi + VMij/(KMij + A_src(t))     linear plus saturable
 #   lin  Kij
 NL_STYLES = ('sat', 'cmp', 'inh', 'mix', 'lin')
+# case = {..., 'style': s, 'pal': 1}: the second palette - rates in which a compartment amount is a multiplicative
+# factor or occurs in the numerator (second-order binding, target mediated disposition, power laws, sigmoid
+# elimination); the k-th flow has the rate of style NL_STYLES_MULT[(k + s) % 6]:
+#   bind   KONij*A_other(t)                           proportional to another amount (second-order binding)
+#   bindv  CLij/Vi + KONij*A_other(t)/Vi              linear plus second-order, compound coefficients
+#   self   Kij*A_src(t)                               proportional to the amount of the source itself
+#   hill   VMij*A_src(t)/(KMij**2 + A_src(t)**2)      the source amount in numerator and denominator
+#   prod   Kij*A_src(t)*A_other(t)                    product of two amounts
+#   cmp    CLij/Vi                                    (linear flows next to the nonlinear ones)
+# (`other` as for inh: the destination; for an output flow the compartment after the source; with one compartment
+# it is the source)
+NL_STYLES_MULT = ('bind', 'bindv', 'self', 'hill', 'prod', 'cmp')
+NL_PALETTES = (NL_STYLES, NL_STYLES_MULT)
+
+
+def _nl_styles(case):
+    return NL_PALETTES[case.get('pal') or 0]
 
 
 def _nl_rate(style, i, j, n):
@@ -1469,6 +1672,16 @@ def _nl_rate(style, i, j, n):
     sfx = f'{i + 1}{0 if j is None else j + 1}'
     src = _amt(NAMES[i])
     other = _amt(NAMES[j if j is not None else (i + 1) % n])
+    if style == 'bind':
+        return S('KON' + sfx) * other
+    if style == 'bindv':
+        return S('CL' + sfx) / S(f'V{i + 1}') + S('KON' + sfx) * other / S(f'V{i + 1}')
+    if style == 'self':
+        return S('K' + sfx) * src
+    if style == 'hill':
+        return S('VM' + sfx) * src / (S('KM' + sfx) ** 2 + src ** 2)
+    if style == 'prod':
+        return S('K' + sfx) * src * other
     if style == 'sat':
         return S('VM' + sfx) / (S('KM' + sfx) + src)
     if style == 'cmp':
@@ -1490,14 +1703,24 @@ def _nl_ref(case):
     Expr = _px()['Expr']
     S = Expr.symbol
     for k, (i, j) in enumerate(edges):
-        style = NL_STYLES[(k + case['style']) % len(NL_STYLES)]
+        styles = _nl_styles(case)
+        style = styles[(k + case['style']) % len(styles)]
         rate = _nl_rate(style, i, j, n)
         sfx = f'{i + 1}{0 if j is None else j + 1}'
         if j is None:
             ref['outs'][NAMES[i]] = rate
         else:
             ref['flows'][(NAMES[i], NAMES[j])] = rate
-        if style in ('cmp', 'mix'):
+        oth = NAMES[j if j is not None else (i + 1) % n]
+        if style in ('bind', 'bindv'):
+            parts.append((f'KON{sfx}*A_{oth}(t)', S('KON' + sfx) * _amt(oth)))
+        if style == 'self':
+            parts.append((f'K{sfx}*A_{NAMES[i]}(t)', S('K' + sfx) * _amt(NAMES[i])))
+        if style == 'hill':
+            parts.append((f'KM{sfx}**2 + A_{NAMES[i]}(t)**2', S('KM' + sfx) ** 2 + _amt(NAMES[i]) ** 2))
+        if style == 'prod' and oth != NAMES[i]:
+            parts.append((f'A_{NAMES[i]}(t)*A_{oth}(t)', _amt(NAMES[i]) * _amt(oth)))
+        if style in ('cmp', 'mix', 'bindv'):
             parts.append((f'CL{sfx}/V{i + 1}', S('CL' + sfx) / S(f'V{i + 1}')))
         if style in ('sat', 'mix'):
             parts.append((f'VM{sfx}/(KM{sfx} + A_{NAMES[i]}(t))', S('VM' + sfx) / (S('KM' + sfx) + _amt(NAMES[i]))))
@@ -1886,6 +2109,30 @@ def _nl_cases(tier):
                 yield dict(c, style=s, full=True)
 
 
+def _nl_mult_cases(tier):
+    """cases of the second palette (amounts as multiplicative factors, key 'pal': 1): n<=2 every case with every
+    rotation of the styles; n=3 every graph x outputs with a rotating dose compartment, the input choice the first
+    palette does not take for that graph, and a rotating style (thorough: both input choices with the rotating style
+    and, without input, every rotation)"""
+    ns = len(NL_STYLES_MULT)
+    for n in (1, 2):
+        for c in _cs_cases(n):
+            for s in range(ns):
+                yield dict(c, style=s, pal=1, **({} if tier == 'quick' else {'full': True}))
+    for c in _cs_cases(3, inputs_all=False):
+        k = len(c['edges']) + len(c['outs'])
+        if c['dose'] != k % 3:
+            continue
+        m = sum(1 << (3 * i + j) for i, j in c['edges']) + sum(1 << (9 + i) for i in c['outs'])
+        if tier == 'quick':
+            if (c['input'] is None) == (m % 2 == 1):
+                yield dict(c, style=m % ns, pal=1)
+        else:
+            for s in range(ns):
+                if s == m % ns or c['input'] is None:
+                    yield dict(c, style=s, pal=1)
+
+
 def bounded_compartmental(tier):
     cases = []
     for n in (1, 2):
@@ -1914,6 +2161,14 @@ def bounded_compartmental(tier):
                   'style, input on none or on the compartment after the dose compartment, '
                   'matrix/amounts/eqs consistency after every substitution')
     cases += nl
+    # appended after everything else: the enumeration order (and the `also` lists) of the cases above is kept
+    cases += [(c, False) for c in _nl_mult_cases(tier)]
+    bound += (' | nonlinear rates with a compartment amount as a multiplicative factor (second palette: KON*A_other(t), '
+              'CL/V + KON*A_other(t)/V, K*A_src(t), VM*A_src(t)/(KM**2 + A_src(t)**2), K*A_src(t)*A_other(t), CL/V; '
+              'every flow in every style for n<=2; n=3: one style per (graph, outputs) with rotating dose and the input '
+              'choice not taken above' + ('' if tier == 'quick' else ', thorough: both input choices, and every style '
+              'without input') + '): the same clauses, substitutions with the compound parts KON*A_other(t), K*A_src(t), '
+              'KM**2 + A_src(t)**2, A_src(t)*A_other(t), CL/V as keys')
     indexed = [(i, c, w) for i, (c, w) in enumerate(cases)]
     chunks = [indexed[i::NPROC * 8] for i in range(NPROC * 8)]
     chunks = [c for c in chunks if c]
